@@ -1,13 +1,15 @@
-(* Proofs/GenAgreeConcatCode.v — the statement-by-statement translation that tools/go2v (extractor
-   "concatcode") regenerates on every run from internal/concat.go (toSliceValue, concatSliceValue,
-   concatMaps, concatInterfaces) and schema/message.go (the sort call of concatToolCalls and its
-   comparator) into Gen/ConcatCode.v IS the reference translation Model/ConcatCodeRef.v, about which
+(* Proofs/GenAgreeConcatCode.v — the statement-by-statement translations that tools/go2v regenerates on
+   every run — extractor "concatcode": internal/concat.go (toSliceValue, concatSliceValue, concatMaps,
+   concatInterfaces; ConcatItems as a table) -> Gen/ConcatCode.v; "concatstream": compose/stream_concat.go
+   concatStreamReader and schema/message.go ConcatMessageStream -> Gen/ConcatStreamCode.v; "concattoolcalls":
+   schema/message.go concatToolCalls with its comparator and sort call -> Gen/ConcatToolCallCode.v —
+   ARE the reference translation Model/ConcatCodeRef.v, about which
    Proofs/ConcatCodeRef.v proves that it computes the model's functions (theorems code_... of Props/C14.v).
    The comparison is by conversion: renamed locals or a let-bound intermediate value leave the
    terms convertible; a changed test, a reordered statement with another meaning, a dropped
    nil filter, another sort function make these proofs fail. *)
 From Eino Require Import Base.Util Model.ConcatTable Model.Concat Model.ConcatStream Model.ConcatGenLib.
-From Eino Require Model.ConcatCodeRef Gen.ConcatCode.
+From Eino Require Model.ConcatCodeRef Gen.ConcatCode Gen.ConcatStreamCode Gen.ConcatToolCallCode.
 
 Section Agree.
 Context {U : UserFn}.
@@ -31,11 +33,11 @@ Proof. intros. reflexivity. Qed.
 End Agree.
 
 Theorem gen_tc_less_agrees : forall a b,
-  Gen.ConcatCode.gen_tc_less a b = Model.ConcatCodeRef.gen_tc_less a b.
+  Gen.ConcatToolCallCode.gen_tc_less a b = Model.ConcatCodeRef.gen_tc_less a b.
 Proof. intros. reflexivity. Qed.
 
 Theorem gen_tc_sort_stable_agrees :
-  Gen.ConcatCode.gen_tc_sort_stable = Model.ConcatCodeRef.gen_tc_sort_stable.
+  Gen.ConcatToolCallCode.gen_tc_sort_stable = Model.ConcatCodeRef.gen_tc_sort_stable.
 Proof. reflexivity. Qed.
 
 Theorem gen_concat_items_shape_agrees :
@@ -43,13 +45,17 @@ Theorem gen_concat_items_shape_agrees :
 Proof. reflexivity. Qed.
 
 Theorem gen_concatStreamReader_agrees : forall X zero ci s,
-  Gen.ConcatCode.gen_concatStreamReader X zero ci s = Model.ConcatCodeRef.gen_concatStreamReader X zero ci s.
+  Gen.ConcatStreamCode.gen_concatStreamReader X zero ci s = Model.ConcatCodeRef.gen_concatStreamReader X zero ci s.
 Proof. intros. reflexivity. Qed.
 
 Theorem gen_ConcatMessageStream_agrees : forall X zero ci s,
-  Gen.ConcatCode.gen_ConcatMessageStream X zero ci s = Model.ConcatCodeRef.gen_ConcatMessageStream X zero ci s.
+  Gen.ConcatStreamCode.gen_ConcatMessageStream X zero ci s = Model.ConcatCodeRef.gen_ConcatMessageStream X zero ci s.
 Proof. intros. reflexivity. Qed.
 
 Theorem gen_concatToolCalls_agrees : forall ord chunks,
-  Gen.ConcatCode.gen_concatToolCalls ord chunks = Model.ConcatCodeRef.gen_concatToolCalls ord chunks.
+  Gen.ConcatToolCallCode.gen_concatToolCalls ord chunks = Model.ConcatCodeRef.gen_concatToolCalls ord chunks.
+Proof. intros. reflexivity. Qed.
+
+Theorem gen_concatMessageArray_agrees : forall X zero ci is_nil_x mas,
+  Gen.ConcatStreamCode.gen_concatMessageArray X zero ci is_nil_x mas = Model.ConcatCodeRef.gen_concatMessageArray X zero ci is_nil_x mas.
 Proof. intros. reflexivity. Qed.
